@@ -273,8 +273,15 @@ func (g *qGen) genBucket(w *qWorld) qQuery {
 				}
 				if kc >= 0 {
 					it = qE{keys[kc], "SExpr " + ckeys[kc]}
-				} else {
+				} else if len(hitems) == 0 {
 					it = g.aggItem(cols)
+				} else {
+					// the code evaluates AND / OR lazily: an aggregate in a later term is not computed (and cannot fail) when an
+					// earlier term decides, while filter_groups evaluates every item of the bucket first. The two differ only
+					// when such an aggregate fails, so later terms take aggregates of plain columns, which never fail
+					a := qAggs[g.r.Intn(len(qAggs))]
+					c := cols[g.r.Intn(len(cols))]
+					it = qE{a[0] + "(" + c.sql + ")", fmt.Sprintf("(SAgg %s false (ECol %d))", a[1], c.idx)}
 				}
 				var ts, tc string
 				idx := len(hitems)
@@ -300,6 +307,12 @@ func (g *qGen) genBucket(w *qWorld) qQuery {
 			q.sql += " HAVING " + hsql
 			q.coq = fmt.Sprintf("(Q (BSelect %s None (Some %s) (Some (%s, %s)) %s false) [] None None)", src.coq, coqList(ckeys), coqList(hitems), hcoq, coqList(citems))
 			q.shape = "group-by-having"
+			if g.r.Intn(4) == 0 && strings.HasPrefix(q.sql, "SELECT ") && strings.HasSuffix(q.coq, " false) [] None None)") {
+				// DISTINCT comes after HAVING (C04_distinct_after_having)
+				q.sql = "SELECT DISTINCT " + strings.TrimPrefix(q.sql, "SELECT ")
+				q.coq = strings.TrimSuffix(q.coq, " false) [] None None)") + " true) [] None None)"
+				q.shape = "group-by-having-distinct"
+			}
 		} else if g.r.Intn(4) == 0 {
 			// SELECT DISTINCT over a grouped view: one row per group first, then the duplicates among these rows go -
 			// which matters when not all keys are selected (or a key is an expression that is not selected)
